@@ -132,7 +132,7 @@ def get_fn(sig, form='function'):
   ns = {'_D': DEFAULTS, '_Inst': Inst, '_fid': fid}
   names = [f'p{i + 1}' for i in range(len(sig))]
   collect = '{' + ', '.join(f"'{n}': {n}" for n in names) + '}'
-  if form == 'function':
+  if form in ('function', 'function2'):
     src = f'def fn({params}):\n  return _Inst(_fid, {collect})\n'
     exec(src, ns)  # pylint: disable=exec-used
     fn = ns['fn']
